@@ -37,8 +37,8 @@ few; pairs, as luna sends them, and single sets both satisfy this).  16 symbols 
 DUT's own counter.
 
 link harness: the stream offered to the physical layer is parsed with the USB 3.2 framing rules (header packet, link command,
-data packet payload, training sets); every cycle `can_send_skp` must imply that the offered word is logical idle with `valid`
-high and not part of a packet or ordered set; outside electrical idle, logical-idle filler between packets must carry the
+data packet payload, training sets); every cycle `can_send_skp` must imply that the offered word is logical idle (`valid` is
+not demanded: the physical layer does not look at it) and not part of a packet or ordered set; outside electrical idle, logical-idle filler between packets must carry the
 permission except for at most two words per run of filler (the arbiter's switching cycle); a word offered with `valid` low
 must be logical idle (the physical layer transmits whatever is on `sink` in every cycle).  With the phy harness (any link
 stream, permission only on filler) this composes to the statement for the real stack.
@@ -747,14 +747,14 @@ class LinkMonitor:
         if elec_idle:
             # only "permission implies logical idle" is judged (whether idle time is granted is moot while nothing is sent)
             res.event("link_cycles_in_electrical_idle")
-            if cs and ((sd, sc) != (0, 0) or not sv):
+            if cs and (sd, sc) != (0, 0):
                 res.violation("skp_permitted_on_non_idle_word", "cycle %d (electrical idle): can_send_skp=1 while the offered word is "
                               "%08x/%x valid=%d" % (b.cycle, sd, sc, sv))
             return
         in_packet = self.classify(sd, sc, sv, cs)
         if in_packet is None:
             res.event("link_words_framing_unknown")
-            if cs and ((sd, sc) != (0, 0) or not sv):
+            if cs and (sd, sc) != (0, 0):
                 res.violation("skp_permitted_on_non_idle_word", "cycle %d: can_send_skp=1 while the offered word is %08x/%x valid=%d"
                               % (b.cycle, sd, sc, sv))
             return
@@ -762,7 +762,7 @@ class LinkMonitor:
             res.event("link_packet_words")
         if cs:
             res.event("link_can_send_skp_cycles")
-            if (sd, sc) != (0, 0) or not sv:
+            if (sd, sc) != (0, 0):
                 res.violation("skp_permitted_on_non_idle_word", "cycle %d: can_send_skp=1 while the offered word is %08x/%x valid=%d"
                               % (b.cycle, sd, sc, sv))
             elif in_packet:
